@@ -43,6 +43,136 @@ check('C19',
       'tracing); the call protocol (add after mapping, remove before) is read '
       'from lift.py.', XH, 'DESIGN.md §4 C19')
 
+XHS = XH + '; JAX primitives replaced by stubs of their documented contract'
+ENGC = ('symbolic-tensor execution of the real layer code (jnp/lax rebound to a z3-'
+        'term array shim) + z3 unsat of output != reference (QF_UFNRA)')
+
+check('C01',
+      'Bounded symbolic check: flax.core.apply/init and Module.apply on scope '
+      'programs (<=2-3 ops over 3 collections, root/child scopes) under 12 mutable-'
+      'filter forms, dict/FrozenDict inputs, symbolic leaf values, run twice and '
+      'compared with an independent reference interpreter: inputs (incl. the filter '
+      'object) untouched, repeatable, exact set of returned collections, writes to '
+      'immutable collections raise, no aliasing between returned and supplied trees, '
+      'sow/capture_intermediates do not change the output.',
+      'Leaves are ints (arrays opaque); RNG key bits compared concretely only; '
+      'longer programs outside the claim.', XH, 'DESIGN.md §4 C01')
+check('C02',
+      'Bounded symbolic check: compact/setup parents with <=2 children whose names '
+      'come from a pool containing the auto-generated names, colliding own param / '
+      'variable names, child reuse: init tree == reference tree, apply(init vars) '
+      '== init output, submodule on its subtree, clashes raise, damaged trees raise, '
+      'bind/unbind.',
+      'lazy_init/eval_shape/jit(init) agreement NOT covered (needs real JAX abstract '
+      'evaluation); fold_in stubbed (keys decided in C09).', XH, 'DESIGN.md §4 C02')
+check('C03',
+      'Bounded symbolic check: object graphs = base graph + symbolic extra edges '
+      '(aliasing, self reference, cycles, lists/dicts, int-keyed dict, static and '
+      'array attrs); split/merge round trip, first-match partition for 6 filter '
+      'tuples, merge argument orders, state/update/clone/pop/iter_graph against an '
+      'independent canonical-form model.',
+      'Graphs beyond the edge bound are outside; identity compared for Modules and '
+      'Variables (lists/dicts are pytree nodes).', XH, 'DESIGN.md §4 C03')
+check('C04',
+      'Bounded symbolic check of the NNX transform protocol (update_context / '
+      'extract.to_tree / from_tree / split_inputs / merge_inputs / JitFn) for jit, '
+      'remat, cond, switch, fori_loop, while_loop: user functions of <=2 ops '
+      '(Variable updates, add/delete/re-bind attrs, new sub-objects, updates through '
+      'an aliased second argument) leave the caller\'s own objects as the eager run '
+      'leaves an identical graph.',
+      'JAX primitives are contract stubs (jit/checkpoint identity, lax.* Python '
+      'control flow): tracer leaks, trace-cache hits/misses, cached_partial, XLA '
+      'results are NOT covered; the real nnx.jit cannot run in this sandbox.',
+      XHS, 'DESIGN.md §4 C04')
+check('C05',
+      'Bounded symbolic check of flax.core.lift (pack/scope_fn/repack/publish) for '
+      'checkpoint, jit, identity map_variables, cond, switch, while_loop: lifted '
+      'program == plain program on the lifted collections (output term, error log, '
+      'returned mutable collections), non-lifted collections untouched.',
+      'JAX primitives are contract stubs; nn.jit trace-cache/fingerprint staleness '
+      'and Module-level transform classes are NOT covered.', XHS, 'DESIGN.md §4 C05')
+check('C09',
+      'SMT (z3, sequences of bit-vector bytes): the byte string the real '
+      '_fold_in_static hashes, recorded by running it on symbolic str/int stand-ins, '
+      'is injective over path suffixes (separator on: counts 1..255 unconditionally, '
+      'counts < 2^24 except the recorded finding; separator off: the two claimed '
+      'cases). CrossHair: Linen make_rng keys are functions of (stream, path, '
+      'count), pairwise distinct, unaffected by unrelated draws; NNX Rngs histories '
+      '(draw/split/restore/reseed) never return a key twice.',
+      'SHA-1/threefry treated as injective; ASCII names; real key bits and rng '
+      'plumbing under real transforms outside.', XH + ' + z3 bit-vector/sequence '
+      'queries generated from the real function', 'DESIGN.md §4 C09')
+check('C10',
+      'Bounded symbolic check: to_state_dict/from_state_dict over nested dict/'
+      'FrozenDict/list/tuple/namedtuple/struct trees (symbolic leaves), restore by '
+      'key under reordered state dicts, mismatch matrix (key sets, lengths, field '
+      'names at depth 0..2) -> ValueError naming the path; chunk/unchunk on a list-'
+      'backed array stand-in for thresholds 1..24 (thorough 1..140) bytes.',
+      'numpy/msgpack byte codecs, dtype names, bfloat16/float8/int4, memory layouts '
+      'are C code on concrete bytes and NOT covered.', XH, 'DESIGN.md §4 C10')
+check('C11',
+      'Bounded symbolic check (legacy msgpack back-end): save/restore/latest/'
+      'available_steps against an in-memory file system; the FS operation at which '
+      'the process dies is a symbolic int (every boundary + torn write); histories '
+      'of <=2-3 saves with symbolic steps/keep/keep_every_n_steps/overwrite vs a '
+      'reference retention model, continuation after the crash; step ordering over a '
+      'pool with floats/negatives/exponents; AsyncManager schedules == sync.',
+      'Orbax back-end NOT covered (atomicity is orbax/tensorstore code); in-memory '
+      'FS semantics (atomic rename, torn write visible) assumed; time/logging '
+      'stubbed.', XH, 'DESIGN.md §4 C11')
+check('C12',
+      'Symbolic-tensor proofs: Dense, DenseGeneral, Einsum, Embed(+attend), '
+      'LayerNorm, RMSNorm, BatchNorm (train/inference, running stats), Dropout, '
+      'avg/max/min pool, Conv 1-D (SAME/VALID/CIRCULAR/REFLECT/CAUSAL/explicit, '
+      'stride, kernel/input dilation, groups) equal an independent reference for '
+      'every value of every element/parameter/index at each instantiated '
+      'configuration; NNX layer == Linen layer on shared parameters.',
+      'Floats treated as reals; rsqrt uninterpreted with its defining axiom; '
+      'configurations beyond the grid, ConvTranspose/ConvLocal/GroupNorm/'
+      'InstanceNorm/LoRA/fp8 NOT covered; shim validated per run against real jax.',
+      ENGC, 'DESIGN.md §4 C12')
+check('C14',
+      'Bounded symbolic check: Linen filter algebra (union/intersect/subtract/'
+      'in_filter/is_filter_empty/group_collections) over every pair of syntactic '
+      'forms (DenyList nesting <=3) with names drawn symbolically from a pool that '
+      'contains every source literal, an unmentioned name and a substring name; NNX '
+      'filterlib predicates / combinators (depth<=3) / split APIs against an '
+      'independent reference.',
+      'Finite name pool stands for all names (functions only ==/hash names); '
+      'CrossHair+z3 trusted; bounds in evidence.', XH, 'DESIGN.md §4 C14')
+check('C15',
+      'Bounded symbolic check: histories of API calls and mutations of sources / '
+      'returned values on FrozenDicts built 6 ways from 6 nested shapes (content + '
+      'hash vs construction snapshot), order-independent ==/hash, struct.dataclass / '
+      'PyTreeNode over every node/static layout of 3 fields.',
+      '"forces a retrace" / jit-vmap-grad reconstruction need real tracing: only '
+      'treedef (in)equality and tree_map/flatten are decided.', XH, 'DESIGN.md §4 C15')
+check('C17',
+      'TrainState.apply_gradients and nnx.Optimizer.update executed with an '
+      'uninterpreted optax transformation (covers every transformation '
+      'parametrically): exactly one update(grads, opt_state, params), params = '
+      'apply_updates(p, U), state = S, step+1, wrt respected, old functional state '
+      'intact. Metrics: z3 proves Average/Welford/Accuracy/MultiMetric over every '
+      'partition of a symbolic stream equal the statistic of the whole stream.',
+      'optax arithmetic itself uninterpreted; floats as reals; sqrt in '
+      'Welford.compute unchecked; nnx.TrainState not covered.',
+      XH + ' + ' + ENGC, 'DESIGN.md §4 C17')
+check('C18',
+      'Bounded symbolic check: ToNNX around int-valued Linen modules and ToLinen '
+      'around an NNX counter module (symbolic input/param/counter, <=2-3 calls, '
+      'mutable on/off, Partitioned / sharding metadata), conversions both ways '
+      'leave the source intact, registry histories stay 1-1.',
+      'Wrapped modules avoid real RNG/array ops; deeper cross-API nesting outside.',
+      XH, 'DESIGN.md §4 C18')
+check('C20',
+      'Bounded symbolic check: pad_shard_unpad on a segment-array stand-in for '
+      'EVERY batch size >=1 and min_device_batch (unbounded symbolic ints; device '
+      'count 1..16/64 enumerated); prefetch_to_device for symbolic source length / '
+      'buffer size / failing position; _invert_perm; shard/unreplicate.',
+      'np/jax rebound to stand-ins in flax.jax_utils; scan_in_dim, replicate, '
+      'onehot and PrefetchIterator thread schedules NOT covered in this revision.',
+      XH, 'DESIGN.md §4 C20')
+
 NA['C06'] = ('semantics implemented by jax.vmap / axes_scan jaxpr tracing / '
              'jax.random.split: no flax-side computation a solver can execute; '
              'stubbing them would stub the oracle (axis-name bookkeeping is decided '
